@@ -17,6 +17,7 @@ import itertools
 import math
 
 import numpy as np
+from ..common import quiet as _quiet
 
 from ..common import fbits, unfbits, v3, vlist, close
 
@@ -195,7 +196,7 @@ def _brute_min_image(v, L):
 
 def _call(fn):
     try:
-        with np.errstate(all="ignore"):
+        with _quiet():
             return float(fn()), None
     except Exception as e:  # noqa: BLE001 - mapped to the class name
         return None, type(e).__name__
